@@ -503,3 +503,124 @@ Proof.
 Qed.
 
 End Apps.
+
+(* ------------------------------------------------------------------------------------------ *)
+(* Part 4: from token visits to the abstract rotation bound                                    *)
+
+(* One token visit of one station on a common time line.  The fields are what the theorems above speak
+   about: vi_prev = last_token_time when the visit begins (the token time of the station's previous
+   visit), vi_arrival = token_time of the visit, vi_end_tht = the deadline do_use_token computes for the
+   visit (do_use_token_state), vi_rounds = the polls of the visit in which applications were asked, as
+   (time of the poll, high_prio_only), in order - the polls in which the monitor of C13_visit_bounded
+   sets h_lp / h_hp; vi_release = the time the last message cycle of the visit is over (or, without any,
+   the time the station turns to passing the token); vi_next = arrival of the token at the next station. *)
+Record visit : Set := mkVisit {
+  vi_prev : Z; vi_arrival : Z; vi_end_tht : Z;
+  vi_rounds : list (Z * bool);
+  vi_release : Z; vi_next : Z }.
+
+(* exactly the conclusion of C13_hold_rule / C13_visit_bounded, per round: a normal round starts before
+   the deadline; a high-priority-only round starts after it and is the first round of the visit *)
+Definition hold_ok (v : visit) : Prop :=
+  forall j now hp, nth_error (vi_rounds v) j = Some (now, hp) ->
+    if hp : bool then j = 0%nat /\ vi_end_tht v <= now else now < vi_end_tht v.
+
+(* the deadline as coded: previous token time + TTR - GAP reserve, reserve >= 0 *)
+Definition deadline_ok (TTR : Z) (v : visit) : Prop := vi_end_tht v <= vi_prev v + TTR.
+
+(* C bounds one message cycle: from the start of a round to the end of its last cycle; and from the
+   arrival of the token to the end of the guaranteed first round / to the decision to pass when nobody
+   wants to send.  O bounds the hand-over (GAP poll, token telegram, retries, idle times). *)
+Definition timing_ok (C O : Z) (v : visit) : Prop :=
+  vi_arrival v <= vi_release v /\
+  match rev (vi_rounds v) with
+  | [] => vi_release v <= vi_arrival v + C
+  | (now, hp) :: _ => vi_release v <= (if hp : bool then vi_arrival v else now) + C
+  end /\
+  0 <= vi_next v - vi_release v <= O.
+
+Definition visit_ok (TTR C O : Z) (v : visit) : Prop :=
+  hold_ok v /\ deadline_ok TTR v /\ timing_ok C O v.
+
+(* the token time line of a stable ring of N stations: visit v is at station v mod N *)
+Definition ring_run (N : nat) (V : nat -> visit) : Prop :=
+  (forall v, vi_arrival (V (S v)) = vi_next (V v)) /\
+  (forall v, (N <= v)%nat -> vi_prev (V v) = vi_arrival (V (v - N)%nat)).
+
+Definition trace_of (N : nat) (V : nat -> visit) : rotation_trace :=
+  mkTrace N (fun v => vi_arrival (V v))
+            (fun v => vi_release (V v) - vi_arrival (V v))
+            (fun v => vi_next (V v) - vi_release (V v)).
+
+Lemma hold_inequality TTR C O v : visit_ok TTR C O v -> 0 <= C ->
+  vi_release v - vi_arrival v <= Z.max 0 (TTR - (vi_arrival v - vi_prev v)) + C.
+Proof.
+  intros [Hh [Hd [Ha [Hc _]]]] HC. unfold deadline_ok in Hd.
+  destruct (rev (vi_rounds v)) as [|[now hp] tl] eqn:Er.
+  - lia.
+  - assert (Hlast : nth_error (vi_rounds v) (length tl) = Some (now, hp)).
+    { assert (E : vi_rounds v = rev tl ++ [(now, hp)]) by (rewrite <- (rev_involutive (vi_rounds v)), Er; reflexivity).
+      rewrite E, nth_error_app2 by (rewrite rev_length; lia). rewrite rev_length, Nat.sub_diag. reflexivity. }
+    specialize (Hh _ _ _ Hlast). destruct hp; lia.
+Qed.
+
+Lemma trace_of_wf N V C O TTR : (1 <= N)%nat -> ring_run N V -> (forall v, visit_ok TTR C O (V v)) ->
+  trace_wf (trace_of N V).
+Proof.
+  intros HN [Hchain _] Hok. split; [exact HN|]. intros v. cbn.
+  destruct (Hok v) as [_ [_ [Ha [_ Ho]]]]. rewrite Hchain. lia.
+Qed.
+
+Lemma trace_of_obeys N V C O TTR : ring_run N V -> (forall v, visit_ok TTR C O (V v)) -> 0 <= C ->
+  obeys_hold_rule (trace_of N V) TTR C O.
+Proof.
+  intros [_ Hprev] Hok HC v Hv. cbn in *. split.
+  - rewrite <- (Hprev v Hv). apply (hold_inequality TTR C O); [apply Hok|exact HC].
+  - destruct (Hok v) as [_ [_ [_ [_ Ho]]]]. lia.
+Qed.
+
+(* C13_rotation_bound_conditional *)
+Theorem rotation_bound_conditional N V TTR C O :
+  (1 <= N)%nat -> ring_run N V -> (forall v, visit_ok TTR C O (V v)) -> 0 <= TTR -> 0 <= C -> 0 <= O ->
+  forall v, (N <= v)%nat ->
+  vi_arrival (V (v + N)%nat) - vi_arrival (V v) <= TTR + Z.of_nat N * (C + O).
+Proof.
+  intros HN Hrun Hok HT HC HO v Hv.
+  exact (rotation_bound (trace_of N V) TTR C O (trace_of_wf N V C O TTR HN Hrun Hok)
+           (trace_of_obeys N V C O TTR Hrun Hok HC) HT HC HO v Hv).
+Qed.
+
+(* non-vacuity: three stations, TTR = 100; every visit asks once at arrival + 1 (before the deadline),
+   the cycle takes 9 more, the hand-over 1 *)
+Definition example_visit (v : nat) : visit :=
+  let a := Z.of_nat v * 11 in
+  mkVisit (a - 33) a (a - 33 + 100) [(a + 1, false)] (a + 10) (a + 11).
+
+Lemma example_ring_ok : ring_run 3 example_visit /\ forall v, visit_ok 100 10 1 (example_visit v).
+Proof.
+  split; [split|].
+  - intros v. cbn. lia.
+  - intros v Hv. cbn. lia.
+  - intros v. split; [|split].
+    + intros j now hp Hn. cbn in Hn. destruct j as [|j]; [|destruct j; discriminate Hn]. injection Hn as <- <-. cbn. lia.
+    + unfold deadline_ok. cbn. lia.
+    + unfold timing_ok. cbn. lia.
+Qed.
+
+(* the monitor of C13_visit_bounded is not trivially true: a normal round after the deadline, and a
+   high-priority-only round after another round of the same visit, are rejected *)
+Definition stub_fdl (st : state) (end_tht : Z) : fdl :=
+  mkFdl default_params (mkRing [] LasValid 2 2 2) ConnOnline (GapWaiting 0) st None 0 0 end_tht 0.
+
+Lemma hold_rejects_late_round :
+  ~ accepts hpre hpost (mkH KUseToken true false false)
+      [HCall (CallTransmit 0 false None); HEnd 500 (stub_fdl (PassToken true AttFirst) 400)].
+Proof. cbn. intros [_ [[C _] _]]. specialize (C eq_refl). lia. Qed.
+
+Lemma hold_rejects_second_extra_round :
+  ~ accepts hpre hpost (mkH KUseToken true false false) [HCall (CallTransmit 0 true None)].
+Proof. cbn. intros [[_ C] _]. discriminate C. Qed.
+
+Lemma gap_rejects_second_poll :
+  ~ accepts gpre gpost (mkG KPassToken 1) [HEnd 0 (stub_fdl (AwaitStatusResponse 9) 0)].
+Proof. cbn. intros [C _]. destruct (C eq_refl ltac:(discriminate)) as [_ C']. discriminate C'. Qed.
